@@ -79,8 +79,12 @@ static void act_cb(void *p)
     if (s->period == 0) s->live = 0;         /* one-shot (slot stays reserved until the step ends: due_now) */
     else s->rem = s->period;
     switch (s->kind) {
-    case 1: {                                 /* delete another action that is not part of this step */
-        for (int i = 0; i < M.pool; i++) if (i != m && M.s[i].live && !M.s[i].due_now) { do_delete_id(M.s[i].id); break; }
+    case 1: {                                 /* delete another live action - also one that fell due on this very tick and has not run yet */
+        for (int i = 0; i < M.pool; i++) if (i != m && M.s[i].live) {
+            int waiting = M.s[i].due_now && !M.s[i].fired;
+            do_delete_id(M.s[i].id);
+            if (waiting && !M.s[i].live) { M.s[i].due_now = 1; M.s[i].fired = 1; }    /* cancelled: must not run any more, slot stays reserved for this step */
+            break; }
         break; }
     case 2:                                   /* create a one-shot */
         if (m_free_slots() > 0) do_create(1, 0, 0, 1);
